@@ -28,6 +28,12 @@ pub struct Case {
     pub offer_ppm: u32,
     pub jitter: u8,
     pub fees: FeeSpec,
+    /// edge of the supported range: when set, the asset with the fewest decimals gets the balance
+    /// whose value normalised to the pool precision is 2^128 x boundary / (1000 x n) - balances
+    /// are normalised into 128 bits and multiplied by n there, so 1000 is the exact edge of "x_i x n
+    /// fits" and n x 1000 the edge of "x_i fits"
+    #[serde(default)]
+    pub boundary: Option<u16>,
 }
 
 pub fn dec_mix() -> impl Strategy<Value = Vec<u8>> {
@@ -45,7 +51,7 @@ pub fn case_strat() -> impl Strategy<Value = Case> {
     (
         amp_strat(),
         dec_mix(),
-        prop_oneof![1 => -6i8..-1, 2 => -1i8..3, 4 => 3i8..9, 2 => 9i8..=12],
+        prop_oneof![1 => -6i8..-1, 2 => -1i8..3, 4 => 3i8..9, 2 => 9i8..=12, 1 => 13i8..=21],
         1u32..1000,
         proptest::collection::vec(prop_oneof![3 => Just(1000u16), 3 => 300u16..=1000, 2 => 10u16..300, 1 => 1u16..10], 4),
         0u8..4,
@@ -53,9 +59,10 @@ pub fn case_strat() -> impl Strategy<Value = Case> {
         prop_oneof![4 => 1u32..100_000, 3 => 100_000u32..1_000_000, 1 => 1_000_000u32..3_000_000, 1 => Just(0u32)],
         0u8..8,
         valid_fees(),
+        proptest::option::weighted(0.05, prop_oneof![3 => 700u16..=1300, 1 => 300u16..=4300]),
     )
-        .prop_map(|(amp, decimals, size_exp, mant, share, oi, ai, offer_ppm, jitter, fees)| Case {
-            amp, decimals, size_exp, mant, share, oi, ai, offer_ppm, jitter, fees,
+        .prop_map(|(amp, decimals, size_exp, mant, share, oi, ai, offer_ppm, jitter, fees, boundary)| Case {
+            amp, decimals, size_exp, mant, share, oi, ai, offer_ppm, jitter, fees, boundary,
         })
 }
 
@@ -65,7 +72,12 @@ pub struct State {
     pub decs: Vec<u8>,
 }
 
+/// ordinary states only (the edge class is for the engines written for 128-bit-edge amounts)
 pub fn build_state(c: &Case) -> Option<State> {
+    build_state_edge(&Case { boundary: None, ..c.clone() })
+}
+
+pub fn build_state_edge(c: &Case) -> Option<State> {
     let n = c.decimals.len();
     let mut amounts = vec![];
     for i in 0..n {
@@ -78,6 +90,23 @@ pub fn build_state(c: &Case) -> Option<State> {
             return None;
         }
         amounts.push(v);
+    }
+    if let Some(f) = c.boundary {
+        // the asset with the fewest decimals is the largest one, at the edge; the others keep their
+        // share of it (skew stays <= 1000:1)
+        let maxd = *c.decimals.iter().max().unwrap() as u32;
+        let i = (0..n).min_by_key(|i| c.decimals[*i]).unwrap();
+        let norm = (BigUint::from(1u8) << 128usize) * big(f as u128) / big(1000 * n as u128);
+        for j in 0..n {
+            let nj = if j == i { norm.clone() } else { &norm * big(c.share[j].clamp(1, 1000) as u128) / big(1000) };
+            // (beyond the 10^30 units of the stated range on purpose: there the contract must either
+            // refuse or still be right)
+            let v = u128::try_from(nj / pow10(maxd - c.decimals[j] as u32)).ok()?;
+            if v == 0 {
+                return None;
+            }
+            amounts[j] = v;
+        }
     }
     let denoms: Vec<String> = (0..n).map(|i| format!("d{i}")).collect();
     let info = PoolInfo {
@@ -146,7 +175,7 @@ impl Engine for C19Swap {
         let ai = (oi + 1 + c.ai as usize % (n - 1)) % n;
         let offer = {
             let v = big(s.amounts[oi]) * big(c.offer_ppm as u128) / big(1_000_000) + big(c.jitter as u128);
-            to_u128(&v).max(1)
+            exact::to_u128_sat(&v).max(1)
         };
         let offer_coin: Coin = coin(offer, format!("d{oi}"));
         let ask = format!("d{ai}");
@@ -271,7 +300,7 @@ impl Engine for C19D {
         case_strat().boxed()
     }
     fn run(&self, c: &Case, st: &mut Stats) -> Result<(), String> {
-        let s = match build_state(c) {
+        let s = match build_state_edge(c) {
             Some(s) => s,
             None => {
                 st.bump("skipped: amount out of range");
@@ -283,6 +312,9 @@ impl Engine for C19D {
         let r = catch_unwind(AssertUnwindSafe(|| pool_manager::helpers::compute_d_with_pool_info(&amp, &info.assets, &info)));
         let skew = skew_of(&s.amounts, &s.decs);
         let class = format!("{} {}", band_amp(c.amp), band_skew(skew));
+        if c.boundary.is_some() {
+            st.bump(if matches!(r, Ok(Some(_))) { "D at the 128-bit edge of normalised balances: computed" } else { "D at the 128-bit edge of normalised balances: refused" });
+        }
         let d_c = match r {
             Ok(Some(d)) => d,
             Ok(None) => {
@@ -326,7 +358,7 @@ pub fn check(tier: Tier, seed: u64) -> PropReport {
         tier,
         seed,
         "exploration",
-        "cases = stableswap pool states (2-4 assets; amp 1..10^6 in three log bands; decimals from {6,8,12,18} plus 0, 1 and arbitrary 0..18; size 10^-6..10^12 whole tokens; per-asset skew up to 1000:1) x (offer asset, ask asset, offer from 1 unit to 3x the offer reserve with 0-7 units of jitter) x fee sets from zero to the 20% cap; engine 1 calls pool_manager::helpers::compute_swap and checks E(offer-2)-2 <= gross output <= E(offer+2)+2 and gross <= reserve, where E is the exact maximal output from big-integer bisection of the Curve invariant at 9 extra digits, bracketed so the resolution of D cannot matter; engine 2 calls compute_d_with_pool_info and checks |D - exact root| <= 2; a refusal (Err or panic) is a clean refusal; non-trivial = exact output >= 3 units and below the reserve (engine 1), every computed D (engine 2); distinct by the generated state",
+        "cases = stableswap pool states (2-4 assets; amp 1..10^6 in three log bands; decimals from {6,8,12,18} plus 0, 1 and arbitrary 0..18; size 10^-6..10^12 whole tokens; per-asset skew up to 1000:1) x (offer asset, ask asset, offer from 1 unit to 3x the offer reserve with 0-7 units of jitter) x fee sets from zero to the 20% cap; for the D engine additionally the edge of the supported range: the asset with the fewest decimals at 2^128 x f/(1000 n) in normalised units (f around 1000 = where balance x n stops fitting 128 bits, and up to n x 1000 = where the balance itself stops fitting), the others at their share of it (skew still <= 1000:1, amounts beyond 10^30 units on purpose), where the contract must either refuse or still be within the bound; engine 1 calls pool_manager::helpers::compute_swap and checks E(offer-2)-2 <= gross output <= E(offer+2)+2 and gross <= reserve, where E is the exact maximal output from big-integer bisection of the Curve invariant at 9 extra digits, bracketed so the resolution of D cannot matter; engine 2 calls compute_d_with_pool_info and checks |D - exact root| <= 2; a refusal (Err or panic) is a clean refusal; non-trivial = exact output >= 3 units and below the reserve (engine 1), every computed D (engine 2); distinct by the generated state",
     );
     rep.assumptions = vec![
         "exactness is relative to the invariant as parameterised in this code base (Ann = amp*n)".into(),
@@ -344,6 +376,8 @@ pub fn check(tier: Tier, seed: u64) -> PropReport {
     rep.push(e.name(), o);
     rep.floor("within tolerance", cases / 2);
     rep.floor("D within 2 units", cases / 2);
+    rep.floor("D at the 128-bit edge of normalised balances: computed", cases / 2000);
+    rep.floor("D at the 128-bit edge of normalised balances: refused", cases / 2000);
     rep
 }
 
